@@ -40,10 +40,10 @@ func (g *Gen) importFiles() (root, a, b, c geneval.FileSpec, recs []RecordSpec) 
 		bb.Struct("IBs", false, 0, geneval.FieldSpec{Name: "d", Shape: S("date")}),
 	}}
 	a = geneval.FileSpec{GoPackage: ImpPkgA,
-		Enums:   []geneval.Value{bb.Enum("IEn", "uint16", true, geneval.OptSpec{Name: "A", UintValue: 1})},
-		Structs: []geneval.Value{bb.Struct("ISt", false, 0, geneval.FieldSpec{Name: "a", Shape: S("int32")}, geneval.FieldSpec{Name: "b", Shape: S("string")}, geneval.FieldSpec{Name: "c", Shape: S("IBs")})},
+		Enums:    []geneval.Value{bb.Enum("IEn", "uint16", true, geneval.OptSpec{Name: "A", UintValue: 1})},
+		Structs:  []geneval.Value{bb.Struct("ISt", false, 0, geneval.FieldSpec{Name: "a", Shape: S("int32")}, geneval.FieldSpec{Name: "b", Shape: S("string")}, geneval.FieldSpec{Name: "c", Shape: S("IBs")})},
 		Messages: []geneval.Value{bb.Message("IMs", 0, geneval.NumField{Num: 1, FieldSpec: geneval.FieldSpec{Name: "e", Shape: S("IEn")}})},
-		Unions: []geneval.Value{bb.Union("IUn", 0, geneval.Branch{Num: 1, Struct: bb.Struct("IUb", false, 0, geneval.FieldSpec{Name: "g", Shape: S("guid")})})},
+		Unions:   []geneval.Value{bb.Union("IUn", 0, geneval.Branch{Num: 1, Struct: bb.Struct("IUb", false, 0, geneval.FieldSpec{Name: "g", Shape: S("guid")})})},
 	}
 	recs = []RecordSpec{
 		{Name: "RS", Kind: ClsStruct, Fields: []RecField{
